@@ -223,6 +223,48 @@ fn check_proof_generic<S: Lin>(
             ctx.label("verifier_requires_t_columns_checked");
         }
     }
+    // (b'') the verifier insists on the transcript's positions: the honest proof with one or all of its
+    // (column, path) pairs replaced by the authentic pair of ANOTHER position of the codeword must not be
+    // accepted, even where the replacement column is consistent with the opened vectors (equal entries of
+    // the encoded vectors at both positions - always so for the zero polynomial, for all positions of a
+    // constant polynomial under a Reed-Solomon code)
+    if t >= 1 && n_ext >= 2 {
+        if let (Ok((_nr, _nc, _rows, ext)), Out::Ok(ev)) = (lincode::ref_matrices::<S>(&keys.ck, &poly), lincode::encode::<S>(&keys.ck, &mp[0].opening.v)) {
+            let cols = lincode::columns_of(&ext);
+            let leaves: Vec<Vec<u8>> = cols.iter().map(|c| lincode::col_hash(c)).collect();
+            let ewf = mp[0].well_formedness.as_ref().and_then(|w| match lincode::encode::<S>(&keys.ck, w) {
+                Out::Ok(e) => Some(e),
+                _ => None,
+            });
+            let twin = |q: usize| -> (usize, bool) {
+                let same = |a: usize| ev[a] == ev[q] && ewf.as_ref().map(|e| e[a] == e[q]).unwrap_or(true) && cols[a] == cols[q];
+                match (1..n_ext).map(|d| (q + d) % n_ext).find(|a| same(*a)) {
+                    Some(a) => (a, true),
+                    None => ((q + 1 + (pre as usize) % (n_ext - 1)) % n_ext, false),
+                }
+            };
+            if cols.len() == n_ext && ev.len() == n_ext {
+                for all in [false, true] {
+                    let mut m = mp.clone();
+                    let mut consistent = true;
+                    let js: Vec<usize> = if all { (0..t).collect() } else { vec![(pre as usize >> 8) % t] };
+                    for j in js {
+                        let (a, same) = twin(m[0].opening.paths[j].leaf_index);
+                        consistent &= same;
+                        m[0].opening.columns[j] = cols[a].clone();
+                        m[0].opening.paths[j] = lincode::ref_path(&leaves, a);
+                    }
+                    ctx.label_if(consistent, "moved_columns_consistent_with_the_opened_vectors");
+                    let Ok(pr) = lincode::proofs_unmirror::<S>(&m) else { continue };
+                    let r = guard(|| S::PC::check(&keys.vk, &cm, &point, [value], &pr, &mut sponge::<Fr>(pre), None));
+                    ctx.check(!crate::util::accepted(&r), sig(P, S::NAME, "check", "columns_at_other_positions_accepted"), || {
+                        format!("t = {t}, n_ext = {n_ext}: a proof whose {} authenticated column(s) sit at positions other than the transcript's was accepted", if all { "t" } else { "one" })
+                    })?;
+                }
+                ctx.label("verifier_requires_transcript_positions_checked");
+            }
+        }
+    }
     // (c) the row encoding is linear and has the declared length
     let n_cols = mc.metadata.n_cols;
     let mut g = rng(pre ^ 0x5a);
@@ -374,7 +416,7 @@ pub fn spec() -> PropertySpec {
     units.push(PropUnit::new("C13:brakedown:proof-columns", 120, 1200, 4, |_| pcase().boxed(), check_brakedown));
     PropertySpec {
         id: "C13",
-        rule: "(a) For every lambda in 1..=256 and rate 1/rho_inv, rho_inv in {2,3,4,8,16}: the exact t (smallest t with 2(1-d/2)^t + n/|F| <= 2^-lambda, big-integer arithmetic, capped at n) fixes the polynomial length L_k = t*4^k/2 at which Ligero's compute_dimensions must switch from 2^k to 2^(k+1) rows; the library's public compute_dimensions is compared with the harness's own (exact t, integer square root) at L_k and L_k+1 for k in {1,4,8} (thorough: k = 1..12 plus random offsets), lengths up to 2^41, so a t that is off by one at any lambda/rate changes a row count; combinations for which no t exists must abort. (b) Generated honest proofs (univariate Ligero up to degree 2500, multilinear Ligero up to 11 variables, lambda in 1..=256, five rates, with/without well-formedness; Brakedown default parameters up to 10 variables): |columns| = |paths| = exact t for the codeword length in the commitment metadata, every leaf index inside the codeword, and the harness's reference verifier (own Fiat-Shamir index derivation: ceil(bits(n)/8) bytes squeezed, re-absorbed, reduced mod n; by-hand Merkle authentication; column checks) accepts. (a') Ligero's field-size rule, enumerated for rho_inv in 2..=40 and a few larger values, univariate and multilinear: trim serves exactly the parameters with rho_inv <= two-adicity of the field and reports the capacity 4^(two_adicity - rho_inv). (b') the library verifier rejects the honest proof once authentication paths, columns or both are cut to 0, t/2, t-1 or a generated count below t. (c) E(a x + b y) = a E(x) + b E(y) on random and sparse messages of the row length, |E(x)| = declared n_ext_cols. Non-trivial: t below the codeword length (uncapped), or a message whose length is not a power of two.",
+        rule: "(a) For every lambda in 1..=256 and rate 1/rho_inv, rho_inv in {2,3,4,8,16}: the exact t (smallest t with 2(1-d/2)^t + n/|F| <= 2^-lambda, big-integer arithmetic, capped at n) fixes the polynomial length L_k = t*4^k/2 at which Ligero's compute_dimensions must switch from 2^k to 2^(k+1) rows; the library's public compute_dimensions is compared with the harness's own (exact t, integer square root) at L_k and L_k+1 for k in {1,4,8} (thorough: k = 1..12 plus random offsets), lengths up to 2^41, so a t that is off by one at any lambda/rate changes a row count; combinations for which no t exists must abort. (b) Generated honest proofs (univariate Ligero up to degree 2500, multilinear Ligero up to 11 variables, lambda in 1..=256, five rates, with/without well-formedness; Brakedown default parameters up to 10 variables): |columns| = |paths| = exact t for the codeword length in the commitment metadata, every leaf index inside the codeword, and the harness's reference verifier (own Fiat-Shamir index derivation: ceil(bits(n)/8) bytes squeezed, re-absorbed, reduced mod n; by-hand Merkle authentication; column checks) accepts. (a') Ligero's field-size rule, enumerated for rho_inv in 2..=40 and a few larger values, univariate and multilinear: trim serves exactly the parameters with rho_inv <= two-adicity of the field and reports the capacity 4^(two_adicity - rho_inv). (b') the library verifier rejects the honest proof once authentication paths, columns or both are cut to 0, t/2, t-1 or a generated count below t, and once one or all (column, path) pairs are replaced by the authentic pair of another codeword position (a position where the encoded opened vectors agree, where one exists). (c) E(a x + b y) = a E(x) + b E(y) on random and sparse messages of the row length, |E(x)| = declared n_ext_cols. Non-trivial: t below the codeword length (uncapped), or a message whose length is not a power of two.",
         assumptions: vec![
             "calculate_t is reached only through the public surface (compute_dimensions, proofs)",
             "a disagreement explained only by the library using 2^MODULUS_BIT_SIZE for |F| gets its own signature (field_size_approximation)",
